@@ -103,6 +103,22 @@ def register2(reg):
         propagates=[GROW, f'implies(not exc_inside(exc), {SAME})', f'implies(exc_is(exc, "ParseException"), not out_ok(exp, {OTOP}))'])
     contract(reg, f'{X}:ParseContext.expcall', ALL, {'self': 'Ctx', 'exp': 'func:PARSE'}, ret='Val', requires=REQ, **SAMEAS)
 
+    # -- skip_to (`->e`): skip input until the lookahead &e succeeds (or the text ends), then parse e there.  The trajectory is the
+    #    code's own (whitespace/comments if any, else one character); the loop terminates because every step advances.
+    CUR = f'{S}[-1]'
+    LEFT = f'{CUR}.cursor.len - {CUR}.cursor.pos'
+    TARGET = f'spec_skip_frame(exp, {OTOP})'
+    contract(reg, f'{X}:ParseContext.skip_to', ['C01', 'C02'], {'self': 'Ctx', 'exp': 'func:PARSE'}, ret='Val', requires=REQ,
+             invariants={0: [f'top_only({S}, {OS})', f'spec_same_text({OTOP}, {CUR})', f'{CUR}.cursor.pos >= {OTOP}.cursor.pos',
+                             f'spec_skip_frame(exp, {CUR}) == {TARGET}']},
+             decreases={0: LEFT},
+             ensures=[('property', f'out_ok(exp, {TARGET})'),
+                      ('property', f'{S} == {OS}[:-1] + [out_frame(exp, {TARGET})]'),
+                      ('property', f'result == out_ret(exp, {TARGET})')],
+             raises={'FailedParse': [('property', f'not out_ok(exp, {TARGET})'),
+                                     ('property', f'{S} == {OS}[:-1] + [out_fail_frame(exp, {TARGET})]')]},
+             propagates=[GROW])
+
     # -- isolate: run exp in its own frame, keep position and names, return its (closed) cst;
     #    C05: when exp fails after a cut the flag must stay visible to the enclosing option
     F = f'out_frame(exp, {FRESH})'
